@@ -137,6 +137,10 @@ def parse_overlay(path, ov=None):
                 ov.parts.append(("raw", open(p).read(), p))
         elif d == "@raw":
             raw = []
+        elif d == "@mod":
+            ov.parts.append(("modopen", w[1]))
+        elif d == "@endmod":
+            ov.parts.append(("modclose",))
         elif d == "@type":
             a = [x.strip() for x in ln[len("@type"):].split("|")]
             ov.parts.append(("type", a[0], a[1], a[2] if len(a) > 2 else ""))
@@ -541,6 +545,7 @@ def clauses(s):
 
 class Unit:
     def __init__(self):
+        self.roots = []
         self.text = ""
         self.fn_table = OrderedDict()   # qname -> info
         self.linemap = []               # generated line (1-based index-1) -> (file, srcline) or None
@@ -750,6 +755,7 @@ def gen_fn(repo, fs, unit, em, mode, canary=False):
     info["n_term"] = sum(1 for l in fs.loops.values() if l.get("decreases"))
     info["calls"] = sorted(set(re.findall(r"\b([a-z_][a-z0-9_]*)\s*(?:::<[^>]*>)?\(", btxt)) - {"if", "while", "match", "for", "return", "Some", "Ok", "Err"})
     info["has_requires"] = bool(fs.requires.strip())
+    info["call_sites"] = [m.group(1) for m in re.finditer(r"\b([A-Za-z_][A-Za-z0-9_]*)\s*(?:::<[^>]*>)?\s*\(", btxt)]
     unit.fn_table[fs.qname] = info
     return info
 
@@ -763,7 +769,15 @@ def gen_type(repo, file, name, opts, unit, em):
     ndrop = len(repo.cfg.dropped)
     toks = rslex.resolve_cfg(ftoks[it.attrs_start:it.end], repo.cfg, "%s:%s" % (file, name))
     unit.rules.hit("R1.cfg", len(repo.cfg.dropped) - ndrop)
+    n7 = unit.rules.count["R7.type"]
     toks = rewrite(toks, unit.rules, {}, None)
+    if unit.rules.count["R7.type"] > n7:
+        # a handle type: its derived Clone clones the Rc (aliasing), which R7 erases
+        for k_, t_ in enumerate(toks):
+            if t_.kind == "gen" and t_.text.startswith("#[derive("):
+                names = [x.strip() for x in t_.text[len("#[derive("):-2].split(",") if x.strip() not in ("Clone", "Copy")]
+                toks[k_] = gen("#[derive(%s)]" % ", ".join(names)) if names else gen("")
+                unit.rules.hit("R7.noclone")
     if it.kind in ("struct",):
         # split attributes from the item before field rewriting
         toks = add_pub_fields(toks, unit.rules)
@@ -781,6 +795,28 @@ def generate(repo, ov, prop=None, canary=False, only=None):
     only: explicit set of qnames to verify (overrides prop)."""
     unit = Unit()
     em = Emitter()
+    # transitive closure of the property's root functions over the (over-approximated) call graph
+    if prop is not None and only is None:
+        byname = defaultdict(list)
+        for q, fs in ov.fns.items(): byname[fs.name].append(q)
+        calls = {}
+        for q, fs in ov.fns.items():
+            it = repo.find(fs.file, "fn", fs.impl, fs.name)
+            body = text(it.toks[it.body_open:it.end]) if it.body_open is not None else ""
+            names = set(re.findall(r"\b([A-Za-z_][A-Za-z0-9_]*)\s*(?:::<[^>]*>)?\s*\(", body))
+            if re.search(r"[^=!<>]=[^=]|\+|-", body): pass
+            if re.search(r"\.into\(\)|::from\(", body): names |= {"from"}
+            if re.search(r"[^-]>|<|==|\+|-", body): names |= {"add", "sub"}
+            calls[q] = set(x for n_ in names for x in byname.get(n_, []))
+        roots = [q for q, fs in ov.fns.items() if prop in fs.serves]
+        only = set(); work = list(roots)
+        while work:
+            q = work.pop()
+            if q in only: continue
+            only.add(q)
+            if ov.fns[q].opts.get("assumed"): continue
+            work.extend(calls[q] - only)
+        unit.roots = roots
     em.raw("// GENERATED by tools/vx.py from the working tree of the repository — do not edit\n")
     em.raw("#![allow(unused_imports, unused_variables, unused_mut, dead_code, unused_parens, unused_braces, non_snake_case, unused_assignments)]\n")
     em.raw("use vstd::prelude::*;\n")
@@ -788,6 +824,10 @@ def generate(repo, ov, prop=None, canary=False, only=None):
     for part in ov.parts:
         if part[0] == "raw":
             em.raw(part[1])
+        elif part[0] == "modopen":
+            em.raw("pub mod %s {\nuse super::*;\n" % part[1])
+        elif part[0] == "modclose":
+            em.raw("} // mod\n")
         elif part[0] == "type":
             em.raw("verus! {\n")
             gen_type(repo, part[1], part[2], part[3], unit, em)
